@@ -1,0 +1,13 @@
+//go:build !go1.20
+// +build !go1.20
+
+package cache
+
+// deleteEntry removes the key if it still holds the given entry.
+//
+// Before go1.20 sync.Map has no conditional delete, this is the best effort.
+func (c *syncMap) deleteEntry(key interface{}, e *TraitEntry) {
+	if cur, ok := c.data.Load(key); ok && cur == interface{}(e) {
+		c.data.Delete(key)
+	}
+}
